@@ -19,7 +19,7 @@ from mc.lattice import chunked
 UTC = timezone.utc
 OFFS = (-14 * 60, -330, 0, 345, 14 * 60)
 BOUNDS = {
-    "quick": {"grid": "G1: ~180 anchors x ms {0,1,499,500,999} x 24 durations (rotating offsets); G2: 3 us-binade-edge anchors (2^49,2^50,2^51 us) x all 1000 ms x 12 durations; G3: ~110 durations x 6 anchors x ms {0,999}; G4: data catalogue (34) x 2 anchors; each inserted singly AND in bulk; all three backends", "ownership": "5 write ops x 5 mutations x 3 read ops x 3 mutated objects + metadata/buckets/create/update aliasing histories", "acknowledged_then_rejected": "1-3 unobserved single inserts followed by each of 6 rejected operations (same / other bucket), then listing and lookup", "id_uniqueness": "all histories of 5 ops over insert / bulk insert / bulk insert of the same object twice / delete oldest|newest|middle, ids unique and lookup == listing after every op"},
+    "quick": {"grid": "G1: ~180 anchors x ms {0,1,499,500,999} x 24 durations (rotating offsets); G2: 3 us-binade-edge anchors (2^49,2^50,2^51 us) x all 1000 ms x 12 durations; G3: ~110 durations x 6 anchors x ms {0,999}; G4: data catalogue (34) x 2 anchors; each inserted singly AND in bulk; all three backends", "ownership": "5 write ops x 5 mutations x 3 read ops x 3 mutated objects + metadata/buckets/create/update aliasing histories", "other_write_paths": "~770 grid events (all durations x 3 anchors, data catalogue with a > 1 day duration) written through replace-by-id, bulk upsert and replace_last", "acknowledged_then_rejected": "1-3 unobserved single inserts followed by each of 6 rejected operations (same / other bucket), then listing and lookup", "id_uniqueness": "all histories of 5 ops over insert / bulk insert / bulk insert of the same object twice / delete oldest|newest|middle, ids unique and lookup == listing after every op"},
     "thorough": {"grid": "G2 additionally at one anchor per decade 1970..2100, epoch 0 and 2100-12-31T23:59:59, x all 1000 ms x 24 durations; rest as quick"},
 }
 RULE = (
@@ -353,6 +353,74 @@ def _unit_own(backend):
     return u.result()
 
 
+def _unit_paths(backend):
+    """value fidelity through the OTHER write paths (replace by id, bulk upsert, replace_last): a
+    placeholder is inserted, rewritten with the grid event, and read back by listing and by id"""
+    ctx = _G["ctx"]
+    u = Unit()
+    ds = S.fresh(backend, ctx.wdir())
+    specs = []
+    for s in (0, (2 ** 51) // 10 ** 6, 1577880000):
+        for ms in (0, 999):
+            for du in DUR_ALL:
+                specs.append((s, ms, 0, 0, du, None))
+    for i in range(len(CATALOGUE)):
+        specs.append((1577880000, 123, 0, 345, 86400 * 10 ** 6 + 1, i))
+    bn = 0
+    for path in ("replace", "upsert", "replace_last"):
+        for lo in range(0, len(specs), 150):
+            bn += 1
+            bid = f"p{bn}"
+            S.mk_bucket(ds, bid)
+            b = ds[bid]
+            chunk = specs[lo : lo + 150]
+            want = {}
+            for i, sp in enumerate(chunk):
+                n = lo + i
+                ph = b.insert(Event(timestamp=datetime(2001, 1, 1, tzinfo=UTC) + timedelta(seconds=n), duration=0, data={"placeholder": n}))
+                ev = mk_event(sp, n)
+                try:
+                    if path == "replace":
+                        b.replace(ph.id, ev)
+                    elif path == "upsert":
+                        ev.id = ph.id
+                        b.insert([ev])
+                    else:
+                        # the placeholder just inserted is the newest only if nothing newer exists: keep
+                        # grid events older than every placeholder by rewriting via replace_last right away
+                        b.replace_last(Event(timestamp=datetime(2099, 1, 1, tzinfo=UTC) + timedelta(seconds=n), duration=0, data={"placeholder": n}))
+                        b.replace_last(ev)
+                except Exception as ex:
+                    u.violation(f"{backend}:{path}:raised-{type(ex).__name__}", f"{backend} {path} of {sp}: {type(ex).__name__}: {ex}", {"kind": "paths", "backend": backend})
+                    continue
+                want[ph.id] = expect(sp, n)
+                if path == "replace_last":
+                    # replace_last moved the newest event (the placeholder) to the grid instant; re-park it in
+                    # the far future so that the next placeholder (2001) is not the newest... simply verify now
+                    got = b.get_by_id(ph.id)
+                    t = None if got is None else S.ev_tuple(got)[1:]
+                    u.evaluations += 1
+                    u.transitions += 1
+                    u.states += 1
+                    u.nontrivial += 1
+                    if t != want[ph.id]:
+                        u.violation(f"{backend}:{path}:value-wrong", f"{backend} {path} of {sp}: stored {t} expected {want[ph.id]}", {"kind": "paths", "backend": backend, "path": path, "spec": list(sp)}, size=sp[4] // 1000)
+                    b.delete(ph.id)
+                    del want[ph.id]
+            got = {t[0]: t[1:] for t in S.dump_bucket(ds, bid)}
+            for i, w in want.items():
+                u.evaluations += 1
+                u.transitions += 1
+                u.states += 1
+                u.nontrivial += 1
+                if got.get(i) != w:
+                    u.violation(f"{backend}:{path}:value-wrong", f"{backend} {path}: id {i} stored {got.get(i)} expected {w}", {"kind": "paths", "backend": backend, "path": path}, size=w[1] // 1000)
+            ds.delete_bucket(bid)
+    u.sample({"kind": "fidelity through replace / bulk upsert / replace_last", "backend": backend, "events": len(specs)}, cap=1)
+    S.close_all()
+    return u.result()
+
+
 IDOPS = ("ins", "bulk2", "bulk2same", "del_oldest", "del_newest", "del_middle")
 
 
@@ -483,7 +551,7 @@ def _unit_ack(backend):
 
 
 def _dispatch(x):
-    return {"fid": _unit_fid, "own": _unit_own, "ids": _unit_ids, "ack": _unit_ack}[x[0]](x[1])
+    return {"fid": _unit_fid, "own": _unit_own, "ids": _unit_ids, "ack": _unit_ack, "paths": _unit_paths}[x[0]](x[1])
 
 
 def run(ctx):
@@ -493,7 +561,7 @@ def run(ctx):
     B = 200
     for i in range(0, len(g), B):
         batches.append((i, g[i : i + B]))
-    units = [("own", b) for b in S.BACKENDS] + [("ack", b) for b in S.BACKENDS]
+    units = [("own", b) for b in S.BACKENDS] + [("ack", b) for b in S.BACKENDS] + [("paths", b) for b in S.BACKENDS]
     depth = 6 if ctx.thorough else 5
     for backend in S.BACKENDS:
         for op in IDOPS[:3]:
@@ -520,6 +588,9 @@ def run_case(ctx, case):
     if case["kind"] == "own":
         p = own_case(case["backend"], ctx.wdir(), case["w"], case["m"], case["r"], case["victim"])
         return {"violations": [["aliasing", p]] if p else []}
+    if case["kind"] == "paths":
+        r = _unit_paths(case["backend"])
+        return {"violations": [[v["key"], v["what"]] for v in r["violations"]]}
     if case["kind"] == "ack":
         p = ack_case(case["backend"], ctx.wdir(), case["k"], case["fault"], case["into_other"])
         return {"violations": [["acknowledged-insert-lost", p]] if p else []}
